@@ -46,7 +46,8 @@ pub fn compare(g: &Generated, directs: &[Vec<Stmt>], quantum: usize) -> Result<(
     let mut term = Term::new();
     let mut o = Opts::default();
     o.quantum = quantum;
-    o.max_calls = 400_000 / quantum.max(1) + 2000;
+    // every PRINT item and every trace ends an execute call: tie the budget to the model's step count
+    o.max_calls = if quantum < 64 { m.steps * 400 + 20_000 } else { m.steps * 40 + 4000 };
     o.replies = g.replies.iter().cloned().collect();
     for l in g.prog.texts() {
         term.enter_raw(&l);
@@ -72,7 +73,14 @@ pub fn compare(g: &Generated, directs: &[Vec<Stmt>], quantum: usize) -> Result<(
         if !same_transcript(&model_tr[i], &got) {
             return Err(Err((
                 "transcript".into(),
-                format!("after direct line {:?}\n--- prescribed by statement-by-statement interpretation:\n{}\n--- implementation:\n{}", text, flat(&model_tr[i]), flat(&got)),
+                format!(
+                    "after direct line {:?}\n--- prescribed by statement-by-statement interpretation:\n{}\n--- implementation:\n{}\n--- as events:\n{:?}\n{:?}",
+                    text,
+                    flat(&model_tr[i]),
+                    flat(&got),
+                    model_tr[i],
+                    got
+                ),
             )));
         }
     }
